@@ -320,6 +320,8 @@ impl CredentialStore for RefStore {
             return Err(StatusCode::from(b));
         }
         g.version += 1;
+        // a record with the same (RP ID, credential id) is replaced, like in a keyed store
+        g.creds.retain(|c| !(c.credential_id == cred.credential_id && c.rp_id == cred.rp_id));
         g.creds.push(cred);
         Ok(())
     }
